@@ -39,7 +39,7 @@ var c11OpKinds = []string{"create", "update", "update-att", "update-dropatt", "d
 type c11Plan struct {
 	Cfg    verifsim.Config `json:"cfg"`
 	Op     string          `json:"op"`
-	Prior  int             `json:"prior"`  // 0: d1 live with attachment and grants; 1: d1 conflicted; 2: d1 tombstoned
+	Prior  int             `json:"prior"`  // 0: d1 live with attachment and grants; 1: d1 conflicted; 2: d1 tombstoned; 3: as 0, last written by the other node past this node's sequence batch
 	Faults [][2]any        `json:"faults"` // [[kv index, alt], ...]
 	Dry    bool            `json:"dry,omitempty"`
 }
@@ -77,10 +77,10 @@ var c11Alts = []string{simstore.AltErr, simstore.AltCasMiss, simstore.AltTimeout
 // reached reports itself as not-applicable (it is counted separately in the evidence).
 func c11Enumerate(seed uint64, tier string) []json.RawMessage {
 	maxIdx := 26
-	priors := []int{0, 2}
+	priors := []int{0, 2, 3}
 	if tier == "thorough" {
 		maxIdx = 40
-		priors = []int{0, 1, 2}
+		priors = []int{0, 1, 2, 3}
 	}
 	var out []json.RawMessage
 	for _, op := range c11OpKinds {
@@ -117,7 +117,7 @@ func c11Enumerate(seed uint64, tier string) []json.RawMessage {
 // c11Generate adds seeded random multi-fault runs on top of the enumeration.
 func c11Generate(seed uint64, tier string, index int) json.RawMessage {
 	r := verifsim.NewRNG(seed).Fork("plan")
-	p := c11Plan{Op: c11OpKinds[r.Intn(len(c11OpKinds))], Prior: r.Intn(3)}
+	p := c11Plan{Op: c11OpKinds[r.Intn(len(c11OpKinds))], Prior: r.Intn(4)}
 	n := r.Range(1, 3)
 	for i := 0; i < n; i++ {
 		p.Faults = append(p.Faults, [2]any{r.Intn(24), c11Alts[r.Intn(len(c11Alts))]})
@@ -153,6 +153,7 @@ func c11Diff(a, b c11Snap) []string {
 var c11Docs = []string{"d1", "d2", "n1"}
 var c11Users = []string{"u1", "u2"}
 var c11Roles = []string{"r1", "r2"}
+var c11Emails = []string{"u1@example.com", "u1new@example.com", "u2@example.com"}
 
 func c11Snapshot(n *simNode, sessions []string) c11Snap {
 	snap := c11Snap{}
@@ -234,7 +235,18 @@ func c11Snapshot(n *simNode, sessions []string) c11Snap {
 				pwok = pw
 			}
 		}
-		snap["user:"+un] = fmt.Sprintf("disabled %v explicit %v roles %v effective %v password %s", u.Disabled(), sortedKeys(u.ExplicitChannels()), sortedKeys(u.RoleNames()), sortedKeys(inh), pwok)
+		snap["user:"+un] = fmt.Sprintf("disabled %v explicit %v roles %v effective %v password %s email <%s>", u.Disabled(), sortedKeys(u.ExplicitChannels()), sortedKeys(u.RoleNames()), sortedKeys(inh), pwok, u.Email())
+	}
+	for _, em := range c11Emails {
+		u, err := a.GetUserByEmail(em)
+		switch {
+		case err != nil:
+			snap["email:"+em] = "error " + err.Error()
+		case u == nil:
+			snap["email:"+em] = "nobody"
+		default:
+			snap["email:"+em] = u.Name()
+		}
 	}
 	for i, sid := range sessions {
 		_, _, err := a.GetSession(sid)
@@ -286,7 +298,8 @@ func c11Run(env *verifsim.Env, raw json.RawMessage) *verifsim.Violation {
 		}
 		mkRole("r1", "R")
 		u1, pw := "u1", "pw1"
-		if _, _, err := n2.dbc.UpdatePrincipal(ctx, &auth.PrincipalConfig{Name: &u1, Password: &pw, ExplicitChannels: base.SetOf("A"), ExplicitRoleNames: base.SetOf("r1")}, true, true); err != nil {
+		u1mail := "u1@example.com"
+		if _, _, err := n2.dbc.UpdatePrincipal(ctx, &auth.PrincipalConfig{Name: &u1, Password: &pw, Email: &u1mail, ExplicitChannels: base.SetOf("A"), ExplicitRoleNames: base.SetOf("r1")}, true, true); err != nil {
 			panic(err)
 		}
 		body := Body{"tok": "d1.r1", "channels": []any{"A"}, "gu": []any{"u1"}, "gc": []any{"G1"}, "ru": []any{"u1"}, "rr": []any{"role:r2"},
@@ -334,6 +347,28 @@ func c11Run(env *verifsim.Env, raw json.RawMessage) *verifsim.Violation {
 	}
 	if err := w.quiesce(w.settleTime()); err != nil {
 		return infraOrBudget(err)
+	}
+	if p.Prior == 3 {
+		// the ordinary two-node state: this node holds part of an older sequence batch, and the document was last
+		// written by the other node with a later sequence; the request's first reserved sequence is then not above
+		// the document's and has to be exchanged (release + nextSequenceGreaterThan)
+		if err := s.Call("prior3", func() {
+			c1, ctx1 := n1.collection(nil)
+			for i := 0; i < 4; i++ {
+				if _, _, err := c1.Put(ctx1, fmt.Sprintf("warm%d", i), Body{"channels": []any{"W"}}); err != nil {
+					panic(err)
+				}
+			}
+			c2, ctx2 := n2.collection(nil)
+			rev3, _, err := c2.Put(ctx2, "d1", Body{"tok": "d1.r3", "channels": []any{"A"}, "gu": []any{"u1"}, "gc": []any{"G1"}, BodyRev: d1rev,
+				BodyAttachments: map[string]any{"a1": map[string]any{"stub": true, "revpos": 1}}})
+			if err != nil {
+				panic(err)
+			}
+			d1rev = rev3
+		}); err != nil {
+			return infraOrBudget(err)
+		}
 	}
 	var pre c11Snap
 	if err := s.Call("pre", func() { pre = c11Snapshot(n2, sessions) }); err != nil {
@@ -439,20 +474,26 @@ func c11Run(env *verifsim.Env, raw json.RawMessage) *verifsim.Violation {
 				return ""
 			}
 		case "user-create":
-			name, pw := "u2", "pw2"
-			_, _, opErr = n1.dbc.UpdatePrincipal(ctx, &auth.PrincipalConfig{Name: &name, Password: &pw, ExplicitChannels: base.SetOf("B"), ExplicitRoleNames: base.SetOf("r1")}, true, false)
+			name, pw, mail := "u2", "pw2", "u2@example.com"
+			_, _, opErr = n1.dbc.UpdatePrincipal(ctx, &auth.PrincipalConfig{Name: &name, Password: &pw, Email: &mail, ExplicitChannels: base.SetOf("B"), ExplicitRoleNames: base.SetOf("r1")}, true, false)
 			expectNew = func(post c11Snap) string {
 				if !has(post["user:u2"], "explicit [B]") || !has(post["user:u2"], "password pw2") {
 					return "user u2 does not exist with the requested grants and password"
 				}
+				if post["email:u2@example.com"] != "u2" {
+					return "user u2 cannot be found by its e-mail address"
+				}
 				return ""
 			}
 		case "user-update":
-			name, pw := "u1", "pw2"
-			_, _, opErr = n1.dbc.UpdatePrincipal(ctx, &auth.PrincipalConfig{Name: &name, Password: &pw, ExplicitChannels: base.SetOf("B"), ExplicitRoleNames: base.SetOf()}, true, true)
+			name, pw, mail := "u1", "pw2", "u1new@example.com"
+			_, _, opErr = n1.dbc.UpdatePrincipal(ctx, &auth.PrincipalConfig{Name: &name, Password: &pw, Email: &mail, ExplicitChannels: base.SetOf("B"), ExplicitRoleNames: base.SetOf()}, true, true)
 			expectNew = func(post c11Snap) string {
 				if !has(post["user:u1"], "explicit [B]") || !has(post["user:u1"], "password pw2") || has(post["user:u1"], "roles [r1") {
 					return "user u1 does not carry the updated grants and password"
+				}
+				if post["email:u1new@example.com"] != "u1" {
+					return "user u1 cannot be found by its new e-mail address"
 				}
 				if post["session:0"] != "false" {
 					return "the session issued before the password change is still valid"
@@ -593,6 +634,9 @@ func c11Run(env *verifsim.Env, raw json.RawMessage) *verifsim.Violation {
 			}
 			v := verifsim.Vf("C11", "partial-state", "%s: outcome unknown to the caller, and the state is neither the previous nor the complete new one: %v", describe, diff)
 			v.Key = faultKey
+			if strings.HasPrefix(p.Op, "user-") && c11EmailLookupBroken(post) {
+				v.Key = "user-and-email-lookup-are-two-writes"
+			}
 			return v
 		}
 	default:
@@ -602,6 +646,9 @@ func c11Run(env *verifsim.Env, raw json.RawMessage) *verifsim.Violation {
 		if len(diff) != 0 {
 			v := verifsim.Vf("C11", "failed-write-left-trace", "%s: the operation failed, but the state changed: %v", describe, diff)
 			v.Key = faultKey
+			if strings.HasPrefix(p.Op, "user-") && c11EmailLookupBroken(post) {
+				v.Key = "user-and-email-lookup-are-two-writes"
+			}
 			return v
 		}
 		if p.Op == "conflict" && !isHTTPStatus(opErr, http.StatusConflict) && fired == 0 {
@@ -640,6 +687,23 @@ func c11Run(env *verifsim.Env, raw json.RawMessage) *verifsim.Violation {
 		}
 	}
 	return nil
+}
+
+// c11EmailLookupBroken reports whether some existing user carries an e-mail address whose lookup entry does
+// not lead to that user (the user document and the lookup document are written by separate operations).
+func c11EmailLookupBroken(post c11Snap) bool {
+	for _, un := range c11Users {
+		st := post["user:"+un]
+		i := strings.Index(st, "email <")
+		if i < 0 {
+			continue
+		}
+		em := strings.TrimSuffix(st[i+len("email <"):], ">")
+		if em != "" && post["email:"+em] != un {
+			return true
+		}
+	}
+	return false
 }
 
 // c11FaultedOps describes the storage operations of the request that were released with a fault.
